@@ -437,11 +437,9 @@ def builder_harnesses(p: Program, s: Struct):
     for k, (f, m0, m1) in enumerate(chain):
         aty = f.ty.setter_ty()
         if f.array:
-            if f.ty.kind == "uint":
-                decls.append(" ".join(f.ty.any_value(f"a{k}_{i}") for i in range(f.count))
-                             + f" let a{k} = [" + ", ".join(f"a{k}_{i}" for i in range(f.count)) + "];")
-            else:
-                decls.append(f"let a{k}: [{aty}; {f.count}] = kani::any();")
+            # element by element, so that every element's view is a named local in the counterexample trace
+            decls.append(" ".join(f.ty.any_value(f"a{k}_{i}") for i in range(f.count))
+                         + f" let a{k} = [" + ", ".join(f"a{k}_{i}" for i in range(f.count)) + "];")
             for i in range(f.count):
                 vv = value_valid(f.ty, f"a{k}[{i}]")
                 if vv:
